@@ -304,6 +304,10 @@ class Result:
         self.known[fid][1] += 1
 
     def violation(self, text, replay):
+        # a step of the harness itself that did not work (a set-up handshake that timed out on a loaded
+        # machine, a fixture that could not be built) is not an observation of the property: exit 2
+        if "harness:" in text:
+            raise Infra("harness problem, no verdict: " + text[:400])
         self.violations.append((text, replay))
 
     def sample(self, s, limit=6):
